@@ -95,8 +95,12 @@ def mutate_case(draw):
             "second_tomo": draw(st.booleans()), "ids_seed": draw(st.integers(0, 10**6))}
 
 
+STORES = [None, None, None, ["object_id", "geom3"], ["geom5", "geom2"], ["geom5", "geom3"]]
+
+
 def strategy(tier):
-    return st.one_of(cloud_case(), cloud_case(), poly_case(), lattice_case(), mutate_case(), mutate_case())
+    base = st.one_of(cloud_case(), cloud_case(), poly_case(), lattice_case(), mutate_case(), mutate_case())
+    return st.tuples(base, st.sampled_from(STORES)).map(lambda t: dict(t[0], store=t[1]))
 
 
 A1 = {"entry": [[2.54616, 5.11083, 5.730353], [8.538923, 9.564001, 3.377749], [6.229608, 6.787277, 1.110418], [4.690384, 2.070112, 7.364714], [3.46794, 8.013815, 2.112646]],
@@ -220,7 +224,7 @@ def ties(E, X, tomo, dmax, dmin, lattice):
     return None, hit
 
 
-def trace_and_validate(out, E, X, tomo, ids, dmax, dmin, tag=""):
+def trace_and_validate(out, E, X, tomo, ids, dmax, dmin, tag="", store=None):
     """one call of trace_chains + the validity predicate; returns the set of branches that fired (None if the call raised)."""
     import pandas as pd
     from cryocat import cryomotl, ribana
@@ -241,7 +245,11 @@ def trace_and_validate(out, E, X, tomo, ids, dmax, dmin, tag=""):
     aE, aX = table(E), table(X)
     dfE, dfX = pd.DataFrame(aE, columns=C), pd.DataFrame(aX, columns=C)
     del _calls[:]
-    ok, res = call(out, "trace_chains", lambda: ribana.trace_chains(cryomotl.Motl(dfE.copy()), cryomotl.Motl(dfX.copy()), dmax, dmin))
+    c_obj, c_ord = (store or ["object_id", "geom2"])
+    if store is None:
+        ok, res = call(out, "trace_chains", lambda: ribana.trace_chains(cryomotl.Motl(dfE.copy()), cryomotl.Motl(dfX.copy()), dmax, dmin))
+    else:  # the chain number / order number are stored in other columns on request
+        ok, res = call(out, "trace_chains", lambda: ribana.trace_chains(cryomotl.Motl(dfE.copy()), cryomotl.Motl(dfX.copy()), dmax, dmin, store_idx1=c_obj, store_idx2=c_ord))
     branches = sorted(set(_calls))
     btag = tag + ("+".join(b for b in branches if b != "suffix_rejected" and not b.startswith("prefix_rejected")) or "no_merge")
     if not ok:
@@ -256,7 +264,7 @@ def trace_and_validate(out, E, X, tomo, ids, dmax, dmin, tag=""):
         out.fail(f"particles_lost_or_duplicated:{btag}", f"{len(got)} rows for {n} particles")
         return branches
     row_of = {ids[i]: i for i in range(n)}
-    skip = {IX["object_id"], IX["geom2"], IX["geom4"]}
+    skip = {IX[c_obj], IX[c_ord], IX["geom4"]}
     for r in got:
         i = row_of[r[IX["subtomo_id"]]]
         if any(r[j] != aE[i, j] for j in range(20) if j not in skip):
@@ -264,10 +272,10 @@ def trace_and_validate(out, E, X, tomo, ids, dmax, dmin, tag=""):
             return branches
     chains = {}
     for r in got:
-        chains.setdefault((r[IX["tomo_id"]], r[IX["object_id"]]), []).append(r)
+        chains.setdefault((r[IX["tomo_id"]], r[IX[c_obj]]), []).append(r)
     for (t, obj), members in sorted(chains.items()):
-        members.sort(key=lambda r: r[IX["geom2"]])
-        orders = [r[IX["geom2"]] for r in members]
+        members.sort(key=lambda r: r[IX[c_ord]])
+        orders = [r[IX[c_ord]] for r in members]
         if orders != [float(v) for v in range(1, len(members) + 1)]:
             dup = len(set(orders)) < len(orders)
             out.fail(f"order_numbers_{'repeated' if dup else 'not_1_to_m'}:{btag}", f"tomogram {t} chain {obj}: particles {[int(r[IX['subtomo_id']]) for r in members]} orders {orders}")
@@ -303,7 +311,10 @@ def run(case):
         return out
     if hit:
         out.label("exact_hit_of_min_or_max_distance")
-    branches = trace_and_validate(out, E, X, tomo, ids, dmax, dmin)
+    store = case.get("store")
+    branches = trace_and_validate(out, E, X, tomo, ids, dmax, dmin, store=store)
+    if store:
+        out.label("store:" + "+".join(store))
     out.label(f"family:{case['family']}", f"tomograms:{len(np.unique(tomo))}", *(f"branch:{b}" for b in branches))
     out.nontrivial = any(b in ("suffix_accepted", "prefix_performed", "prefix_performed_both_sides") for b in branches)
     if out.violations or lattice:
@@ -313,6 +324,6 @@ def run(case):
     X2 = X + rng.normal(0, 0.35 * dmax, X.shape)
     reason2, _ = ties(E, X2, tomo, dmax, dmin, False)
     if reason2 is None:
-        trace_and_validate(out, E, X2, tomo, ids, dmax, dmin, tag="second_call_same_entries:")
+        trace_and_validate(out, E, X2, tomo, ids, dmax, dmin, tag="second_call_same_entries:", store=store)
         out.label("second_call")
     return out
